@@ -10,7 +10,8 @@
 (*           nesting shape x depth (front-end work bounded), flat chains that nest the     *)
 (*           syntax tree; hostile argument classes (mutating callbacks, hooks, cyclic /    *)
 (*           deep values, texts of 5000 characters), receivers, operator forms, the use    *)
-(*           of every object a call returns.                                               *)
+(*           of every object a call returns; jump x scope path (targets of break / continue *)
+(*           across blocks, loops, labels and function / arrow boundaries).                *)
 (*   Judge : token streams / error positions of the real lexer, outcome typing of every   *)
 (*           evaluation (front-end soup, corpus prefixes, mutations, built-in grid).      *)
 EXTENDS LexerFSM, JsGrammar, JsVal, Json, IOUtils
@@ -501,7 +502,91 @@ ChainLens == IF Quick THEN {100, 1000, 5000} ELSE {30, 100, 300, 600, 900, 1000,
 ChainCases == {[kind |-> "chain", name |-> ck.n, src |-> ck.pre, ds |-> <<>>, n |-> nn, digit |-> ck.unit, embed |-> ck.post] :
                   ck \in ChainKinds, nn \in ChainLens}
 
-FamCases == LongCases \cup EscCases \cup StmtCases \cup JumpCases \cup LtCases \cup NestCases \cup ChainCases
+\* (h) jump x scope path: the target of a break / continue is looked up among the statements that enclose it INSIDE ITS OWN FUNCTION.
+\*     A program is a path of frames (outermost first), each an opening and a closing text on lines of their own, around a jump:
+\*     loops (c = "L"), switch ("W"), labelled statements that are not loops ("B"), statements that neither offer a target nor end
+\*     the search ("T": block, if, else, try, catch, finally), and the function boundaries - ordinary functions in every form
+\*     ("F": expression, declaration, callback, method, getter, setter, constructor) and arrow functions with a block body ("A").
+\*     lab = the label of the frame ("" = none).  The hole is the jump alone ("plain") or the jump after a completed sibling loop
+\*     ("sib": the sibling's target must be gone).  Line 1 declares the counter of the loops, frame i opens on line i + 1, the jump
+\*     stands on line depth + 2.  ECMA-262 13.8.1 / 13.9.1 / 13.13.1 (early errors): an unlabelled break needs an enclosing loop or
+\*     switch, an unlabelled continue an enclosing loop, `break L` an enclosing statement labelled L, `continue L` an enclosing LOOP
+\*     labelled L - all without crossing a function boundary; a label may not be nested in a statement with the same label (same
+\*     function).  A program that breaks one of them is malformed: the front end must raise a JSSyntaxError on the line of the
+\*     jump (of the second label).  `return` outside a function is accepted by this engine on purpose (the program is evaluated like
+\*     a function body; the value is the result of eval): not judged.
+ScopeFrames == <<
+  [n |-> "while",    c |-> "L", lab |-> "",  open |-> "while (n-- > 0) {", close |-> "}"],
+  [n |-> "dowhile",  c |-> "L", lab |-> "",  open |-> "do {", close |-> "} while (n-- > 0);"],
+  [n |-> "for",      c |-> "L", lab |-> "",  open |-> "for (var i = 0; i < 2; i++) {", close |-> "}"],
+  [n |-> "forin",    c |-> "L", lab |-> "",  open |-> "for (var k in {a: 1, b: 2}) {", close |-> "}"],
+  [n |-> "forof",    c |-> "L", lab |-> "",  open |-> "for (var v of [1, 2]) {", close |-> "}"],
+  [n |-> "switch",   c |-> "W", lab |-> "",  open |-> "switch (1) { case 1:", close |-> "}"],
+  [n |-> "switchdef", c |-> "W", lab |-> "", open |-> "switch (1) { default:", close |-> "}"],
+  [n |-> "lblock",   c |-> "B", lab |-> "x", open |-> "x: {", close |-> "}"],
+  [n |-> "lif",      c |-> "B", lab |-> "x", open |-> "x: if (1) {", close |-> "}"],
+  [n |-> "lwhile",   c |-> "L", lab |-> "x", open |-> "x: while (n-- > 0) {", close |-> "}"],
+  [n |-> "lfor",     c |-> "L", lab |-> "x", open |-> "x: for (var j = 0; j < 2; j++) {", close |-> "}"],
+  [n |-> "lforin",   c |-> "L", lab |-> "x", open |-> "x: for (var m in {a: 1}) {", close |-> "}"],
+  [n |-> "lswitch",  c |-> "W", lab |-> "x", open |-> "x: switch (1) { case 1:", close |-> "}"],
+  [n |-> "block",    c |-> "T", lab |-> "",  open |-> "{", close |-> "}"],
+  [n |-> "if",       c |-> "T", lab |-> "",  open |-> "if (1) {", close |-> "}"],
+  [n |-> "else",     c |-> "T", lab |-> "",  open |-> "if (0) {} else {", close |-> "}"],
+  [n |-> "try",      c |-> "T", lab |-> "",  open |-> "try {", close |-> "} catch (e) {}"],
+  [n |-> "catch",    c |-> "T", lab |-> "",  open |-> "try { throw 1; } catch (e) {", close |-> "}"],
+  [n |-> "finally",  c |-> "T", lab |-> "",  open |-> "try {} finally {", close |-> "}"],
+  [n |-> "fexpr",    c |-> "F", lab |-> "",  open |-> "(function () {", close |-> "})();"],
+  [n |-> "fdecl",    c |-> "F", lab |-> "",  open |-> "function f() {", close |-> "} f();"],
+  [n |-> "cbfn",     c |-> "F", lab |-> "",  open |-> "[1].forEach(function () {", close |-> "});"],
+  [n |-> "method",   c |-> "F", lab |-> "",  open |-> "({ m: function () {", close |-> "} }).m();"],
+  [n |-> "getter",   c |-> "F", lab |-> "",  open |-> "({ get a() {", close |-> "} }).a;"],
+  [n |-> "setter",   c |-> "F", lab |-> "",  open |-> "({ set a(w) {", close |-> "} }).a = 1;"],
+  [n |-> "ctor",     c |-> "F", lab |-> "",  open |-> "new (function () {", close |-> "})();"],
+  [n |-> "arrow",    c |-> "A", lab |-> "",  open |-> "(() => {", close |-> "})();"],
+  [n |-> "arrowvar", c |-> "A", lab |-> "",  open |-> "var g = (p) => {", close |-> "}; g(1);"],
+  [n |-> "cbarrow",  c |-> "A", lab |-> "",  open |-> "[1, 2].forEach(e => {", close |-> "});"]>>
+ScopeCats == {"L", "W", "B", "T", "F", "A"}
+ScopeAll == 1..Len(ScopeFrames)
+\* the representative frames of the deepest level of a tier: every category, a labelled loop and a labelled statement that is no loop
+ScopeRedNames == {"while", "forof", "switch", "lblock", "lwhile", "if", "finally", "fexpr", "arrow"}
+ScopeRed == {fi \in ScopeAll : ScopeFrames[fi].n \in ScopeRedNames}
+ScopeJumps == {"break", "continue", "break x", "continue x", "break y", "continue y", "return"}
+JumpKind(jp) == CASE jp \in {"break", "break x", "break y"} -> "break" [] jp \in {"continue", "continue x", "continue y"} -> "continue" [] OTHER -> "return"
+JumpLabel(jp) == CASE jp \in {"break x", "continue x"} -> "x" [] jp \in {"break y", "continue y"} -> "y" [] OTHER -> ""
+ScopeHoles == <<[n |-> "plain", pre |-> ""], [n |-> "sib", pre |-> "while (0) { break; } "]>>
+RECURSIVE ScopePaths(_, _)
+ScopePaths(fs, dd) == IF dd = 0 THEN {<<>>} ELSE {<<fi>> \o pt : fi \in fs, pt \in ScopePaths(fs, dd - 1)}
+\* quick: the full product of the frames up to depth 2 and the representative frames at depth 3 (sibling hole: one level less);
+\* thorough: the full product up to depth 3 (sibling hole: up to depth 2)
+ScopePlainPaths == ScopePaths(ScopeAll, 0) \cup ScopePaths(ScopeAll, 1) \cup ScopePaths(ScopeAll, 2)
+                   \cup ScopePaths(IF Quick THEN ScopeRed ELSE ScopeAll, 3)
+ScopeSibPaths == ScopePaths(ScopeAll, 0) \cup ScopePaths(ScopeAll, 1) \cup ScopePaths(IF Quick THEN ScopeRed ELSE ScopeAll, 2)
+RECURSIVE ScopeOpen(_)
+ScopeOpen(pt) == IF pt = <<>> THEN "" ELSE ScopeFrames[Head(pt)].open \o "\n" \o ScopeOpen(Tail(pt))
+RECURSIVE ScopeClose(_)
+ScopeClose(pt) == IF pt = <<>> THEN "" ELSE ScopeClose(Tail(pt)) \o "\n" \o ScopeFrames[Head(pt)].close
+ScopeText(pt, jp, hi) == "var n = 2;\n" \o ScopeOpen(pt) \o ScopeHoles[hi].pre \o jp \o ";" \o ScopeClose(pt)
+\* ds = <<index of the hole form>> \o the path (indices into ScopeFrames), name = the jump: what the judge reads
+ScopeCase(pt, jp, hi) == [kind |-> "scope", name |-> jp, src |-> ScopeText(pt, jp, hi), ds |-> <<hi>> \o pt, n |-> Len(pt), digit |-> "", embed |-> ""]
+ScopeCases == {ScopeCase(pt, jp, 1) : pt \in ScopePlainPaths, jp \in ScopeJumps} \cup {ScopeCase(pt, jp, 2) : pt \in ScopeSibPaths, jp \in ScopeJumps}
+\* ---- the reference: targets visible from the jump ----
+IsBoundary(fi) == ScopeFrames[fi].c \in {"F", "A"}
+\* the frames of the innermost function (after the last boundary of the path)
+ScopeInner(pt) == LET bs == {pi \in 1..Len(pt) : IsBoundary(pt[pi])}
+                      lb == IF bs = {} THEN 0 ELSE CHOOSE pi \in bs : \A pj \in bs : pj <= pi
+                  IN SubSeq(pt, lb + 1, Len(pt))
+JumpOk(pt, jp) == LET sc == ScopeInner(pt)  lb == JumpLabel(jp)  kd == JumpKind(jp) IN
+                  CASE kd = "return" -> TRUE
+                    [] kd = "break" /\ lb = "" -> \E si \in 1..Len(sc) : ScopeFrames[sc[si]].c \in {"L", "W"}
+                    [] kd = "continue" /\ lb = "" -> \E si \in 1..Len(sc) : ScopeFrames[sc[si]].c = "L"
+                    [] kd = "break" /\ lb # "" -> \E si \in 1..Len(sc) : ScopeFrames[sc[si]].lab = lb
+                    [] OTHER -> \E si \in 1..Len(sc) : ScopeFrames[sc[si]].lab = lb /\ ScopeFrames[sc[si]].c = "L"
+\* positions (in the path) of a label nested in a statement with the same label, no function boundary between the two
+DupLabelAt(pt) == {pj \in 1..Len(pt) : /\ ScopeFrames[pt[pj]].lab # ""
+                                        /\ \E pi \in 1..(pj - 1) : /\ ScopeFrames[pt[pi]].lab = ScopeFrames[pt[pj]].lab
+                                                                   /\ \A pk \in pi..pj : ~IsBoundary(pt[pk])}
+
+FamCases == LongCases \cup EscCases \cup StmtCases \cup JumpCases \cup LtCases \cup NestCases \cup ChainCases \cup ScopeCases
 FamInit == ph = "fstart" /\ pf = "" /\ inp = <<>> /\ rec_i = 0
 FamNext == ph = "fstart" /\ ph' = "fam" /\ (\E cs \in FamCases : inp' = cs) /\ UNCHANGED <<pf, rec_i>>
 FamEmit == ph # "fam" \/ PrintT(ToJson(inp))
@@ -517,6 +602,13 @@ FamLaw == /\ ph = "fam" /\ inp.kind = "esc" =>
           /\ ph = "fam" /\ inp.kind = "lt" => ~(LtMustReject(inp.name, inp.digit) /\ LtMustBeString(inp.name, inp.digit))
           /\ ph = "fam" /\ inp.kind = "nest" => inp.n \in 1..NestLimit /\ inp.ds[2] = Len(inp.src) /\ inp.ds[1] > WorkBound(inp.ds[2], inp.n)
           /\ ph = "fam" /\ inp.kind = "chain" => inp.n >= 1 /\ inp.digit # ""
+          /\ ph = "fam" /\ inp.kind = "scope" => /\ Len(inp.ds) = inp.n + 1 /\ inp.ds[1] \in 1..Len(ScopeHoles) /\ inp.name \in ScopeJumps
+                                                 /\ \A di \in 2..Len(inp.ds) : inp.ds[di] \in ScopeAll
+                                                 \* a function boundary directly around the jump hides every target
+                                                 /\ (inp.n >= 1 /\ IsBoundary(inp.ds[Len(inp.ds)]) /\ JumpKind(inp.name) # "return" => ~JumpOk(Tail(inp.ds), inp.name))
+                                                 \* a frame that is no boundary never takes a target away
+                                                 /\ (inp.n >= 1 /\ ~IsBoundary(inp.ds[Len(inp.ds)]) /\ JumpOk(SubSeq(inp.ds, 2, Len(inp.ds) - 1), inp.name)
+                                                        => JumpOk(Tail(inp.ds), inp.name))
           /\ ph = "fstart" => /\ Cardinality(LongCases) = Cardinality(LongForms) * Cardinality(LongLens) * 10
                               /\ Cardinality(EscCases) = Cardinality(EscCarriers) * Cardinality(EscDigits)
                               /\ \E ec \in EscCases : EscOk(ec.ds) /\ EscVal(EscStrip(ec.ds)) = 1114111
@@ -531,6 +623,20 @@ FamLaw == /\ ph = "fam" /\ inp.kind = "esc" =>
                               /\ WorkBound(4000, NestLimit) < 2147483647 \div 4
                               /\ Cardinality(ChainCases) = Cardinality(ChainKinds) * Cardinality(ChainLens)
                               /\ \E nn \in ChainLens : nn >= 1000        \* beyond the host's default recursion limit
+                              \* jump x scope: every category of frame is among the representatives of the deepest level (with a labelled loop
+                              \* and a labelled statement that is no loop), the representatives are frames, names are unique, only x is a label,
+                              \* every (outer, middle, inner) triple of categories is a path, both holes and every jump at every depth
+                              /\ \A cc \in ScopeCats : \E fi \in ScopeRed : ScopeFrames[fi].c = cc
+                              /\ \A fi \in ScopeAll : ScopeFrames[fi].c \in ScopeCats /\ ScopeFrames[fi].lab \in {"", "x"} /\ (ScopeFrames[fi].c = "B" => ScopeFrames[fi].lab = "x")
+                              /\ \E fi \in ScopeRed : ScopeFrames[fi].c = "L" /\ ScopeFrames[fi].lab = "x"
+                              /\ Cardinality(ScopeRed) = Cardinality(ScopeRedNames) /\ Cardinality({ScopeFrames[fi].n : fi \in ScopeAll}) = Len(ScopeFrames)
+                              /\ \A c1 \in ScopeCats, c2 \in ScopeCats, c3 \in ScopeCats : \E pt \in ScopePlainPaths :
+                                    Len(pt) = 3 /\ ScopeFrames[pt[1]].c = c1 /\ ScopeFrames[pt[2]].c = c2 /\ ScopeFrames[pt[3]].c = c3
+                              /\ \A f1 \in ScopeAll, f2 \in ScopeAll : <<f1, f2>> \in ScopePlainPaths
+                              /\ \A c1 \in ScopeCats, c2 \in ScopeCats : \E pt \in ScopeSibPaths : Len(pt) = 2 /\ ScopeFrames[pt[1]].c = c1 /\ ScopeFrames[pt[2]].c = c2
+                              /\ Cardinality(ScopeCases) = (Cardinality(ScopePlainPaths) + Cardinality(ScopeSibPaths)) * Cardinality(ScopeJumps)
+                              /\ \A jp \in ScopeJumps : JumpKind(jp) = "return" \/ ~JumpOk(<<>>, jp)
+                              /\ \E pt \in ScopePlainPaths : DupLabelAt(pt) # {}
 
 \* ---------------- token sequences over the expression vocabulary (S->C, acceptor) ---------------------------
 \* Bound <= 4: within it JsGrammar!ParseStmtsD covers every ECMAScript program over this vocabulary (arrow functions
@@ -712,6 +818,26 @@ JudgeNest(r) ==
 \* flat source that nests the syntax tree: outcome typing
 JudgeChain(r) == Typing(r, r.lens)
 
+\* jump x scope path (fname = the jump, ds = <<hole form>> \o path).  The lines on which the program is malformed: the line of the
+\* jump when it has no target inside its function, the line of a label nested in a statement with the same label.  Malformed =>
+\* a front-end JSSyntaxError on one of these lines (with a duplicated label the jump's own line is accepted too: which of the two
+\* statements a labelled jump means is then not defined).  As-is rule Dev_DuplicateLabel: a nested label with the name of an
+\* enclosing one is accepted (the jump resolves to the innermost).
+JudgeScope(r) ==
+  LET ty == Typing(r, r.lens) IN
+  IF ty.v # "pass" THEN ty
+  ELSE IF Len(r.ds) < 1 \/ r.fname \notin ScopeJumps \/ \E di \in 2..Len(r.ds) : r.ds[di] \notin ScopeAll
+       THEN [v |-> "unsupported", dev |-> "", why |-> "scope record without path / jump"]
+  ELSE LET pt == Tail(r.ds)
+           jline == Len(pt) + 2
+           dups == {pj + 1 : pj \in DupLabelAt(pt)}
+           bad == dups \cup (IF JumpOk(pt, r.fname) THEN {} ELSE {jline}) IN
+       IF bad = {} THEN Pass
+       ELSE IF r.out.o = "syntax" /\ r.out.steps = 0
+            THEN (IF r.out.line \in bad \/ (dups # {} /\ r.out.line = jline) THEN Pass
+                  ELSE Mis("", "the syntax error does not locate the jump without a target (the nested duplicate label)"))
+       ELSE IF dups # {} /\ JumpOk(pt, r.fname) THEN Mis("Dev_DuplicateLabel", "a label nested in a statement with the same label is accepted")
+       ELSE Mis("", "a break / continue without a target inside its own function is not rejected by the front end")
 \* line terminator x context (fname = context, args = <<terminator>>).  As-is rule Dev_LineTerminatorLFOnly: the lexer knows LF
 \* only (CR, LS, PS do not end a comment, a string or a regular expression literal, and do not advance the line).
 JudgeLt(r) ==
@@ -737,6 +863,7 @@ Verdict(r) ==
     [] r.kind = "stmt" -> JudgeStmt(r)
     [] r.kind = "nest" -> JudgeNest(r)
     [] r.kind = "chain" -> JudgeChain(r)
+    [] r.kind = "scope" -> JudgeScope(r)
     [] r.kind = "src" -> JudgeSrc(r)
     [] r.kind = "call" -> JudgeCall(r)
     [] r.kind = "toks" -> JudgeToks(r)
